@@ -362,4 +362,11 @@ PROPS["C19"] = dict(
     level_note="Race reports are turned into violations with the process log as the replay artefact.",
 )
 
+# thorough tier: the deterministic sweeps (at their quick size) and rapid cases are repeated on a 32-bit
+# build (GOARCH=386: int, uint and uintptr are 32 bits wide), except for the properties built with -race
+for _p in PROPS.values():
+    if not _p.get("race"):
+        _p["thorough"]["x386"] = dict(checks=min(_p["quick"]["rapid"]["checks"], 20000), shards=2)
+        _p["assumptions"] = _p["assumptions"] + ["thorough tier: a second, 32-bit build (GOARCH=386, executed on the same amd64 machine) repeats the quick-size sweeps and rapid cases"]
+
 NOT_APPLICABLE = {}
